@@ -5,7 +5,7 @@ import itertools
 from fractions import Fraction
 
 from ..core import LEAN, REPO, Prop, Violation, import_repo, show_bool, show_rat, write_if_changed
-from ..extract import e_cascade
+from ..extract import e_cascade, py2lean_cascade
 
 CP = ["none", "pass", "reject", "raise", "odd", "raise0", "lt50"]
 PR = ["ok", "raise", "raise0"]
@@ -36,6 +36,7 @@ class C19(Prop):
         "amplification factors used by the correspondence are dyadic rationals, on which float arithmetic is exact",
         "on_stage_complete / on_cascade_complete callbacks, statistics, timing fields and run_parallel are not modelled",
     ]
+    extractors = ["E-cascade", "py2lean-cascade"]
     trusted_modelled = ["extractor E-cascade: the real Cascade.run evaluated on all 1- and (required) 2-stage pipelines over the "
                         "behaviour alphabet, regenerated each run into Operon/Gen/CascadeTable.lean (c19_stage_table_agrees)",
                         "modelled, not verified: Cascade.run's loop as Operon.Cascade.stageStep/runFrom beyond that table"]
@@ -48,7 +49,8 @@ class C19(Prop):
     def extract(self, ctx):
         rows = e_cascade.evaluate(REPO)
         changed = write_if_changed(LEAN / "Operon/Gen/CascadeTable.lean", e_cascade.render(rows))
-        return [{"id": "E-cascade", "rows": None if rows is None else len(rows), "facts_changed": changed}]
+        return ([{"id": "E-cascade", "rows": None if rows is None else len(rows), "facts_changed": changed}]
+                + py2lean_cascade.run(REPO, LEAN, write_if_changed))
 
     # --- generation --------------------------------------------------------------------------------------
     def _case(self, halt, maxa, stages, x, note=""):
@@ -82,6 +84,11 @@ class C19(Prop):
                 continue
             elif r0 < 0.4:
                 case["lines"].insert(-1, rng.choice(["shadow plain", "shadow mapk 5 5 5"]))
+            elif r0 < 0.5:
+                # an on_cascade_complete observer (returns / raises: then run() raises after the result was shown)
+                case["lines"].insert(1, "cobserver " + rng.choice(["ok", "raise", "raise"]))
+                if rng.random() < 0.5:
+                    case["lines"].insert(1, "observer " + rng.choice(["ok", "always", f"at:{rng.randrange(k)}"]))
             if it % 17 == 5:
                 lines = [f"mapk {show_bool(rng.random() < 0.5)} {rng.choice(['100', '1000', '4', '2000'])} "
                          f"{rng.choice(AMPS + ['10'])} {rng.choice(AMPS + ['10'])} {rng.choice(AMPS + ['10'])}"]
@@ -162,6 +169,14 @@ class C19(Prop):
                         c = self._case(halt, "4", [s1, s2], 1, "exhaustive observer")
                         c["lines"].insert(1, f"observer {ob}")
                         extra.append(c)
+        for halt in (True, False):
+            for s1 in small:
+                for cb in ("ok", "raise"):
+                    for s2 in (("pass", "ok", "none", True, "2"), ("reject", "ok", "none", True, "2")):
+                        c = self._case(halt, "4", [s1, s2], 1, "exhaustive on_cascade_complete observer")
+                        c["lines"].insert(1, f"cobserver {cb}")
+                        c["lines"] += ["run 2", "stats", "cobserver none", "run 1", "stats"]
+                        extra.append(c)
         nested = []
         for halt in (True, False):
             for mx in ("4", "100"):
@@ -231,13 +246,15 @@ class C19(Prop):
                         saved_log, saved_seen = log[:], seen[:]
                         del log[:]
                         del seen[:]
+                        saved_cshown = cshown[:]
                         try:
-                            inner.append(render(casc.run(3)))
+                            inner.append(do_run(3))
                         except Exception as e:          # a nested run that raises is an observation, not a fault
                             inner.append(f"raise:{type(e).__name__}")
                         finally:
                             log[:] = saved_log
                             seen[:] = saved_seen
+                            cshown[:] = saved_cshown
                             depth[0] -= 1
                 elif pr != "ok":
                     raise fault(pr, "p")
@@ -268,6 +285,25 @@ class C19(Prop):
                              show_rat(r.total_amplification), blk, "[" + res + "]",
                              "[" + ",".join(log) + "]", "[" + ",".join(map(str, seen)) + "]"])
 
+        cshown = []    # results the on_cascade_complete observer was shown during the current run
+        cmode = ["none"]
+
+        def do_run(x):
+            # one call of run(): with an on_cascade_complete observer installed the line shows the result the observer was
+            # shown (exactly once, and it must be the very record that is returned); `craise` when the observer raised
+            del cshown[:]
+            try:
+                r = casc.run(x)
+            except Exception:
+                if cmode[0] == "raise" and len(cshown) == 1:
+                    return render(cshown[0]) + " cshown craise"
+                raise
+            if cmode[0] == "none":
+                return render(r)
+            if len(cshown) != 1 or cshown[0] is not r:
+                return render(r) + f" cshown MISMATCH:{len(cshown)}"
+            return render(r) + " cshown"
+
         def ensure():
             nonlocal casc
             if casc is None:
@@ -284,6 +320,7 @@ class C19(Prop):
                     log.clear()
                     cur.clear()
                     made[0] = 0
+                    cmode[0] = "none"
                     obs.append("ok")
                 elif t[0] == "mapk" and len(t) == 6:
                     # the preset's stage objects are picked up through the public add_stage (the preset registers its
@@ -300,6 +337,7 @@ class C19(Prop):
                     log.clear()
                     cur.clear()
                     made[0] = 3
+                    cmode[0] = "none"
                     for k, st_ in enumerate(added if added else list(getattr(casc, "_stages"))):
                         d = {"cp": "none" if st_.checkpoint is None else f"mapk{k + 1}", "pr": f"mapk{k + 1}", "eh": "none",
                              "req": True, "amp": st_.amplification, "id": k, "name": st_.name}
@@ -332,14 +370,32 @@ class C19(Prop):
 
                     def mkobs(k=k):
                         def ob(stage_result):
-                            seen.append(next((j for j, d in enumerate(cur) if d["name"] == stage_result.stage_name), -1))
+                            cands = [j for j, d in enumerate(cur) if d["name"] == stage_result.stage_name]
+                            if len(cands) > 1:
+                                # stages sharing a name: the stage shown is told apart by the processor that ran last
+                                lastp = next((int(e[1:].split(":")[0]) for e in reversed(log) if e.startswith("p")), -1)
+                                cands = [lastp] if lastp in cands else cands
+                            seen.append(cands[0] if cands else -1)
                             # position of the stage the result belongs to = number of results recorded so far is not
                             # available here; use the stage's current position by name among the live descriptors
-                            pos = next((j for j, d in enumerate(cur) if d["name"] == stage_result.stage_name), -1)
+                            pos = seen[-1]
                             if k == "always" or (k.startswith("at:") and pos == int(k[3:])):
                                 raise fault("raise0" if made[0] % 2 else "raise", "observer")
                         return ob
                     casc.on_stage_complete = None if k == "none" else mkobs()
+                    obs.append("ok")
+                elif t[0] == "cobserver" and len(t) == 2:
+                    ensure()
+                    ck = t[1]
+
+                    def mkcobs(ck=ck):
+                        def cb(result):
+                            cshown.append(result)
+                            if ck == "raise":
+                                raise fault("raise0" if made[0] % 2 else "raise", "cobserver")
+                        return cb
+                    casc.on_cascade_complete = None if ck == "none" else mkcobs()
+                    cmode[0] = ck if ck in ("ok", "raise") else "none"
                     obs.append("ok")
                 elif t[0] == "shadow":
                     # a second cascade object alive next to the one under test must not influence it
@@ -384,7 +440,7 @@ class C19(Prop):
                     del seen[:]
                     del inner[:]
                     depth[0] = 0
-                    outer = render(casc.run(int(t[1])))
+                    outer = do_run(int(t[1]))
                     obs.append(" | ".join([outer] + inner))
                 else:
                     obs.append("bad-op")
@@ -432,6 +488,9 @@ class C19(Prop):
                   x_in = int(t[1]) if part_i == 0 else 3
                   o_ = part
                   f = o_.split(" ")
+                  if any(x.startswith("MISMATCH") for x in f[9:]):
+                      # the record shown to on_cascade_complete must be the one run() returns (it is what "released" means)
+                      out.append(Violation("completion_observer_is_shown_the_returned_result", "shown once, same record", o_, idx))
                   success, fin = f[0] == "1", f[1]
                   res = [x for x in f[6][1:-1].split(",") if x]
                   log = [x for x in f[7][1:-1].split(",") if x]
